@@ -159,6 +159,21 @@ def run(cx):
     brk = [b for b in ast.walk(lp2) if isinstance(b, ast.Break)]
     ok = len(brk) == 1 and norm(lp2.iter) == "range(first_col_pos, len(current_row))" and any(norm(e) == f"self._cell_is_empty(current_row[{i}])" and not pol for e, pol in facts(brk[0]))
     cx.ob("R18d", lp2, ok, "filling stops at the first non-empty cell, starting at the first titled column" if ok else "ladder fill range / stop condition altered")
+    # where the ladder starts: the first column that has a title at all (also columns of ranged groups / columns no rule names)
+    fc = [(stt, v) for stt, v in assignments(it, "first_col_pos") if v is not None and not (isinstance(v, ast.Constant) and v.value is None)]
+    ok = len(fc) == 1 and isinstance(fc[0][1], ast.Call) and call_name(fc[0][1]) == "next" and isinstance(fc[0][1].args[0], ast.GeneratorExp)
+    why = "first_col_pos is not `next(position of the first titled column, None)`"
+    if ok:
+        g = fc[0][1].args[0]
+        gen = g.generators[0]
+        ok = len(g.generators) == 1 and norm(gen.iter) == "enumerate(cols_names)" and isinstance(gen.target, ast.Tuple) and len(gen.target.elts) == 2 and norm(g.elt) == norm(gen.target.elts[0])
+        if ok:
+            nm = norm(gen.target.elts[1])
+            conds = [norm(c) for c in gen.ifs]
+            ok = conds in ([nm], [f"{nm} != ''"], [f"len({nm}) > 0"], [f"bool({nm})"])
+            why = f"the ladder starts at the first column satisfying `{' and '.join(conds) or 'True'}`, not at the first titled column: blank cells in leading titled columns the condition leaves out " \
+                  "(ranged groups, columns no rule names) are not filled from above, so the objects differ from those of the filled-in table and origins point at blank cells"
+    cx.ob("R18d", fc[0][0] if fc else it, ok, "the ladder starts at the first titled column" if ok else why, stmt="ladder start column")
     cr = [v for _, v in assignments(it, "current_row") if v is not None]
     ok = sorted(norm(v) for v in cr) == ["list(row)", "row", "row"]
     cx.ob("R18d", it, ok, "the filled row is a fresh list (the sheet's row is not modified)" if ok else f"current_row is bound to {sorted(norm(v) for v in cr)}", stmt="fresh row")
